@@ -180,6 +180,17 @@ for _d in (1, 2, 3):
              bounded=f"maxdepth = {_d} (loop unrolled)",
              note="verify succeeds only for a verified token whose parent is genesis or a stored token (chain checked by get_root_path)")
 
+# ... and verify re-checks the signature of EVERY token on the path, not only the first: `elements` may have been filled without
+# gather_token (PseudonymManager loads it straight from the database), so nothing about stored tokens is taken for granted here
+TREE_RAW = OBJ(f"{TT}::TokenTree", public_key=PK, private_key=EXPR("None"), genesis_hash=BYTES_N(32), _logger=LOGGER(),
+               elements=DICTOBJ(BYTES, TOKEN(), where="v._hash == k"), unchained=EXPR("OrderedDict()"), unchained_max_size=EXPR("100"))
+contract(f"{TT}::TokenTree.verify", "verify.checks-every-token-on-the-path", vars={**VARS, "tree": TREE_RAW},
+         instances=[{"n_wait": 0}], requires=PRE[:3], call="tree.verify(t, 3)", raises=[],
+         ensures=["implies(result, signed_by(t, PKB))",
+                  "not (result and t.previous_token_hash != GEN) or signed_by(tree.elements[t.previous_token_hash], PKB)"],
+         bounded="maxdepth = 3 (loop unrolled); elements: symbolic map of any size, NOT assumed verified",
+         note="a foreign-signed token between the start token and genesis makes verify fail")
+
 # ---------------------------------------------------------------------------------------------------------------------
 # reloading a public serialisation: EVERY token of the blob is offered to the tree, whatever happened to the ones before it (a token
 # that has to wait for its parent, or a forged one, must not hide the rest), and the verdict is the conjunction
